@@ -282,6 +282,9 @@ def r5_write_data_frame(ctx):
 
 
 def run(ctx):
+    from . import C01, C09
+    C01.r8_single_forwarder(ctx)   # the forwarder passes each (id, chunk) pair on unchanged: a chunk cannot leave under another stream's id
+    C09.r1_locks(ctx)              # one stream's event cannot wedge the dispatch of all the others (no self-deadlock on the stream tables)
     r1_table_keys(ctx)
     r2_stamps(ctx)
     r3_allocator(ctx)
